@@ -4,7 +4,7 @@ import itertools
 
 LEVEL = "exploration"
 RULE = (
-    "every combination of 14 item delimiters (, ; tab | blank : ' \" \\ a 1 # ~ ae) x the 20 permitted quote characters x "
+    "every combination of 18 item delimiters (, ; tab | blank : ' \" \\ a 1 # ~ ae CR LF FF euro) x the 20 permitted quote characters x "
     "2 escape characters x 2 quoting modes x 4 line delimiters is offered to Cid.read; for each accepted format tables "
     "of 0-5 rows x 1-4 columns over an alphabet made of that format's delimiter, quote, escape, blank, LF, CR, CRLF, the "
     "empty string and two letters are written with DelimitedRowWriter and read back with delimited_rows, and (every 4th "
@@ -14,7 +14,7 @@ RULE = (
 )
 ASSUMPTIONS = ["skip initial space is left off, as the property states"]
 
-DELIMITERS = [",", ";", "\t", "|", " ", ":", "'", '"', "\\", "a", "1", "#", "~", "ä"]
+DELIMITERS = [",", ";", "\t", "|", " ", ":", "'", '"', "\\", "a", "1", "#", "~", "ä", "\r", "\n", "\x0c", "€"]
 QUOTES = sorted("!\"#$%&'*+-/:;=?\\^_`~")
 ESCAPES = ['"', "\\"]
 QUOTINGS = ["minimal", "all"]
@@ -24,6 +24,8 @@ LINE_DELIMITERS = ["lf", "cr", "crlf", "any"]
 def spell_delimiter(d):
     if d == "\t":
         return "tab"
+    if d in "\r\n\x0c":
+        return {"\r": "cr", "\n": "lf", "\x0c": "ff"}[d]
     if d == " ":
         return '" "'
     if d.isdigit():
